@@ -6,7 +6,7 @@ EXPLANATION = ("R-ORDER in push (swap head, set node.prev, then publish through 
                "and is_head is ptr::eq(tail, swapped-out prev)); R-EXIT Entry::remove unlinks only behind link-bit ∧ prev non-null ∧ "
                "next non-null and otherwise writes nothing; pop/pop_if take the value with Option::take after advancing the tail and "
                "dereference `next` only behind a non-null load; R-MO floors; R-WHO consumer-side confinement at the use sites in may")
-EXPLANATION_2 = ('pop/pop_if/peek report `nothing` only on the head == tail edge; interval-list heap-claim rules imported from C08')
+EXPLANATION_2 = ('pop/pop_if/peek report `nothing` only on the head == tail edge; interval-list heap-claim rules imported from C08; every function of the module that frees a node does so only at refs == 0 (F25)')
 NOT_DECIDED = "the histories; the non-atomic `refs` accessed from two threads; mpsc_list.rs (unused by may) is only covered by its R-ORDER/R-MO rules"
 CONFIGS_QUICK = ["default"]
 CONFIGS_THOROUGH = ["default", "nosteal", "bare"]
